@@ -23,7 +23,7 @@ LEVEL = "exploration"
 N_QUICK, N_THOROUGH = 400, 12000
 T_QUICK, T_THOROUGH = 85, 1500
 TARGETS = ["cpu_serial", "cpu_openmp", "opencl", "cuda"]
-FLOORS = {"types": 120, "token_comparisons": 360, "cl12_accepted": 120, "cl20_accepted": 120, "host_c_accepts_opencl": 120,
+FLOORS = {"unions_with_switch_methods": 8, "types": 120, "token_comparisons": 360, "cl12_accepted": 120, "cl20_accepted": 120, "host_c_accepts_opencl": 120,
           "host_cxx_accepts_cuda": 120, "global_qualifier_counts_checked": 120, "outputs_compared_lines": 8000,
           "setter_diffs_compared": 1500}
 FLOORS.update({"run:" + t: 120 for t in TARGETS})
@@ -150,6 +150,32 @@ def driver_source(calls, lines, offset, inline_source=None):
     return "\n".join(body)
 
 
+def _add_union_methods(w, c):
+    """Union references of the type get two switch methods (one returning a scalar, one taking and returning a pointer
+    into object memory); every member class gets the functions the switch dispatches to."""
+    n = 0
+    for name, U in c.cache.items():
+        if not (isinstance(U, type) and issubclass(U, xo.UnionRef)):
+            continue
+        for mi, M in enumerate(U._reftypes):
+            if getattr(M, "_xv_methods", False):
+                continue
+            mn = M.__name__
+            src = (f"/*gpufun*/ double {mn}_xvm({mn} obj, int64_t k){{ return (double)k + {mi}; }}\n"
+                   f"/*gpufun*/ /*gpuglmem*/ double* {mn}_xvp({mn} obj, /*gpuglmem*/ double* p){{ return p; }}\n")
+            if "_extra_c_sources" in M.__dict__ and isinstance(M._extra_c_sources, list):
+                M._extra_c_sources.append(src)
+            else:
+                M._extra_c_sources = list(getattr(M, "_extra_c_sources", [])) + [src]
+            M._xv_methods = True
+        U._methods = [xo.Method(c_name="xvm", args=[xo.Arg(xo.Int64, name="k")], ret=xo.Arg(xo.Float64)),
+                      xo.Method(c_name="xvp", args=[xo.Arg(xo.Float64, pointer=True, name="p")],
+                                ret=xo.Arg(xo.Float64, pointer=True))]
+        n += 1
+    if n:
+        w.count("unions_with_switch_methods", n)
+
+
 def run_case(w, rng):
     c = new_case(w, rng, roots=("st", "st", "ar", "ar", "ur"), depth=rng.choice([1, 2, 2, 3]),
                  env_kw=dict(al=8, neighbours=0, kind="numpy"), modes=(None, "aligned"), vg_kw=dict(max_dyn=3, nulls=0.2))
@@ -170,6 +196,8 @@ def run_case(w, rng):
         except Exception as e:
             w.violation(f"construct-{exc_kind(e)}", f"{type(e).__name__}: {e}", c.info)
             return
+        if rng.random() < 0.6:
+            _add_union_methods(w, c)
         try:
             S = sources_for(c.cls, rng, w)
         except Exception as e:
